@@ -5,7 +5,17 @@ import Mathlib.Tactic.LinearCombination
 /-
 C02 - boundary conditions hold exactly at the discrete boundary.
 Theorems about `PdeVerif.BC` (model of pde/grids/boundaries/local.py and the compiled
-re-implementation in pde/backends/numba/_boundaries.py).
+re-implementation in pde/backends/numba/_boundaries.py) and `PdeVerif.BCParse` (axes.py, axis.py).
+
+* one face point: `*_exact`; the data `MixedBC` really returns: `vpMixedCode_*`, `robin_code_*`;
+  `robin_singular_unsatisfiable` (why the coefficient -2/dx cannot be imposed by any virtual point);
+* one face: `setGhost_*` (every class; `setGhost_robin_*` for the coefficients as the user gives
+  them: finite regular -> Robin equation, infinite or singular -> boundary value 0);
+* all faces: `setGhostAll_frame`, `setGhostAll_written`, `setGhostAll_perm`, and the end state
+  `setGhostAll_fixed`, **`setGhostAll_holds`** (the defining equation `HoldsAt` of every face in the
+  final array), `setGhostAll_dirichlet`, `setGhostAll_robin`, `setGhostAll_normal_untouched`;
+* specifications: precedence, unknown keys, the `{"low","high"}` / sequence / legacy formats,
+  errors instead of silent defaults, periodicity of every accepted result (`parse_periodicity_consistent`).
 -/
 namespace PdeVerif.BC
 open PdeVerif
